@@ -70,3 +70,81 @@ Proof.
   - destruct (first_term_error tab _) as [[| | |]|] eqn:F; try discriminate.
     intros _. destruct (first_term_error_key _ _ F) as (t & Hin & Ht). exists t. split; [exact Hin|apply eval_term_key, Ht].
 Qed.
+
+(* ---- the printed exponent reads back as the same integer, for every integer the printer can spell ---- *)
+Definition dval (l : list Z) (a : Z) : Z := fold_left (fun acc d => acc * 10 + d) l a.
+
+Lemma digits_fuel_value f : forall n acc, 0 <= n < 10 ^ Z.of_nat f -> (0 < f)%nat ->
+  dval (digits_fuel f n acc) 0 = dval acc n.
+Proof.
+  induction f as [|f IH]; intros n acc Hn Hf; [inversion Hf|].
+  cbn [digits_fuel]. destruct (Z.ltb_spec n 10) as [Hlt|Hge].
+  - unfold dval. cbn [fold_left]. reflexivity.
+  - destruct f as [|f'].
+    + assert (E1 : 10 ^ Z.of_nat 1 = 10) by reflexivity. rewrite E1 in Hn. exfalso. apply (Z.lt_irrefl n). eapply Z.lt_le_trans; [apply Hn|exact Hge].
+    + rewrite IH.
+      * unfold dval. cbn [fold_left]. f_equal. rewrite Z.mul_comm. symmetry. apply Z.div_mod. discriminate.
+      * rewrite Nat2Z.inj_succ, Z.pow_succ_r in Hn by apply Nat2Z.is_nonneg.
+        split; [apply Z.div_pos; [apply Hn|reflexivity]|]. apply Z.div_lt_upper_bound; [reflexivity|apply Hn].
+      * apply Nat.lt_0_succ.
+Qed.
+
+Lemma digits_fuel_range f : forall n acc, 0 <= n -> Forall (fun d => 0 <= d <= 9) acc ->
+  Forall (fun d => 0 <= d <= 9) (digits_fuel f n acc).
+Proof.
+  induction f as [|f IH]; intros n acc Hn Ha; cbn [digits_fuel]; [exact Ha|].
+  destruct (Z.ltb_spec n 10) as [Hlt|Hge].
+  - constructor; [split; [exact Hn|]|exact Ha]. apply Z.lt_succ_r. exact Hlt.
+  - apply IH; [apply Z.div_pos; [exact Hn|reflexivity]|]. constructor; [|exact Ha].
+    pose proof (Z.mod_pos_bound n 10 eq_refl) as [H0 H1]. split; [exact H0|]. apply Z.lt_succ_r. exact H1.
+Qed.
+
+Lemma digits_fuel_nonempty f : forall n acc, (0 < f)%nat -> digits_fuel f n acc <> [].
+Proof.
+  induction f as [|f IH]; intros n acc Hf; [inversion Hf|]. cbn [digits_fuel].
+  destruct (Z.ltb n 10); [discriminate|]. destruct f as [|f']; [cbn; discriminate|]. apply IH, Nat.lt_0_succ.
+Qed.
+
+Lemma unsup_sup_digit d : 0 <= d <= 9 -> unsup (sup_digit d) = Some d.
+Proof.
+  intros H. assert (d = 0 \/ d = 1 \/ d = 2 \/ d = 3 \/ d = 4 \/ d = 5 \/ d = 6 \/ d = 7 \/ d = 8 \/ d = 9) as Hd.
+  { destruct H as [H0 H9]. destruct d as [|p|p]; [left; reflexivity| |exfalso; apply H0; reflexivity].
+    do 9 (destruct p as [p|p|]; try (exfalso; apply H9; reflexivity); try (repeat (try (left; reflexivity); right); reflexivity)). }
+  destruct Hd as [->|[->|[->|[->|[->|[->|[->|[->|[->| ->]]]]]]]]]; reflexivity.
+Qed.
+
+Lemma sup_digit_not_minus d : 0 <= d <= 9 -> sup_digit d <> 8315.
+Proof.
+  intros H E. pose proof (unsup_sup_digit d H) as U. rewrite E in U. discriminate U.
+Qed.
+
+Lemma sup_value_digits l : Forall (fun d => 0 <= d <= 9) l -> forall a, sup_value a (map sup_digit l) = Some (dval l a).
+Proof.
+  induction 1 as [|d l Hd _ IH]; intros a; [reflexivity|].
+  cbn [map sup_value]. rewrite (unsup_sup_digit d Hd). apply IH.
+Qed.
+
+Lemma super_value_pos c cs : c <> 8315 -> super_value (c :: cs) = sup_value 0 (c :: cs).
+Proof.
+  intros H. unfold super_value. destruct c as [|p|p]; try reflexivity.
+  repeat (destruct p as [p|p|]; try reflexivity). exfalso; apply H; reflexivity.
+Qed.
+
+(* formatting.superscript followed by formatting.from_superscript is the identity on every exponent the printer writes
+   (1 prints as the empty string and is read back by the bare-symbol rule instead); 10^400 is the model's digit budget *)
+Theorem superscript_reads_back e : e <> 1 -> Z.abs e < 10 ^ 400 -> super_value (superscript e) = Some e.
+Proof.
+  intros H1 Hb. unfold superscript. destruct (Z.eqb_spec e 1) as [E|_]; [contradiction|].
+  assert (Hr : Forall (fun d => 0 <= d <= 9) (digits (Z.abs e))) by (apply digits_fuel_range; [apply Z.abs_nonneg|constructor]).
+  assert (Hne : digits (Z.abs e) <> []) by (apply digits_fuel_nonempty; apply Nat.lt_0_succ).
+  assert (Hv : dval (digits (Z.abs e)) 0 = Z.abs e).
+  { unfold digits. rewrite digits_fuel_value; [reflexivity| |apply Nat.lt_0_succ]. split; [apply Z.abs_nonneg|exact Hb]. }
+  destruct (digits (Z.abs e)) as [|d ds] eqn:Ed; [contradiction|].
+  destruct (Z.ltb_spec e 0) as [Hneg|Hpos].
+  - cbn [app map super_value]. cbn [map] in *. 
+    change (sup_digit d :: map sup_digit ds) with (map sup_digit (d :: ds)).
+    rewrite (sup_value_digits _ Hr 0), Hv. cbn [option_map]. f_equal. rewrite Z.abs_neq by (apply Z.lt_le_incl, Hneg). apply Z.opp_involutive.
+  - cbn [app map]. assert (Hd : sup_digit d <> 8315) by (apply sup_digit_not_minus; inversion Hr; assumption).
+    rewrite (super_value_pos _ _ Hd). change (sup_digit d :: map sup_digit ds) with (map sup_digit (d :: ds)).
+    rewrite (sup_value_digits _ Hr 0), Hv. f_equal. apply Z.abs_eq, Hpos.
+Qed.
